@@ -278,3 +278,40 @@ fn indent_regexp(regexp: String, config: &RegExpConfig) -> String {
 
     indented_regexp.join("\n")
 }
+
+#[cfg(grex_verif)]
+pub(crate) struct VerifStages<'a> {
+    pub(crate) clusters: Vec<GraphemeCluster<'a>>,
+    pub(crate) trie: Dfa<'a>,
+    pub(crate) minimized: Dfa<'a>,
+    pub(crate) first_ast: Expression<'a>,
+}
+
+#[cfg(grex_verif)]
+impl<'a> RegExp<'a> {
+    /// Runs the stages of `from` one by one (through the same private functions) and
+    /// hands the intermediate values to the verification harness.
+    pub(crate) fn verif_stages(
+        test_cases: &'a mut Vec<String>,
+        config: &'a RegExpConfig,
+    ) -> VerifStages<'a> {
+        if config.is_case_insensitive_matching {
+            Self::convert_for_case_insensitive_matching(test_cases);
+        }
+        Self::sort(test_cases);
+        let clusters = Self::grapheme_clusters(test_cases, config);
+        let trie = Dfa::from(&clusters, false, config);
+        let minimized = Dfa::from(&clusters, true, config);
+        let first_ast = Expression::from(Dfa::from(&clusters, true, config), config);
+        VerifStages {
+            clusters,
+            trie,
+            minimized,
+            first_ast,
+        }
+    }
+
+    pub(crate) fn verif_ast(&self) -> &Expression<'a> {
+        &self.ast
+    }
+}
